@@ -229,6 +229,7 @@ class Engine(ExprMixin, CallMixin, StmtMixin):
         self.cur_module = target.split(":")[0]
         self.obligations = []
         self.touched = set()
+        self.used_contracts = set()
         self.ghost_hit = set()
         self.written = set()
         self.raised = []
@@ -309,6 +310,7 @@ class Engine(ExprMixin, CallMixin, StmtMixin):
                     if (w_, k_) not in self.ghost_hit]
             if dead:
                 rep.error = "ghost annotation matches no reachable statement: " + "; ".join(dead)[:300]
+        rep.used_contracts = sorted(self.used_contracts)      # callee contracts this proof relied on (modular verification)
         rep.obligations = self.obligations
         # vacuity guard: every postcondition of the contract was generated on at least one path
         rep.untouched = [lab for lab, _ in c.ensures if f"post:{lab}" not in self.touched and not lab.startswith("rt:")] if not rep.error else []
@@ -330,6 +332,10 @@ class Engine(ExprMixin, CallMixin, StmtMixin):
             if all(a.eq(b) for a, b in zip(v0.t, v1.t)):
                 continue
             name = loc if isinstance(loc, str) else ".".join(loc)
+            if not isinstance(loc, str):
+                # a mutable field of a class: one array (object -> component) per component
+                self.oblige(o.st, kind, f"unchanged({name})", z3.And(*[a == b for a, b in zip(v1.t, v0.t)]), fn)
+                continue
             self.oblige(o.st, kind, f"unchanged({name})", self.equal(v1, v0, fn) if not isinstance(v0.sort, (SetSort, DictSort)) else eq_vals(v1, v0), fn)
 
     def _check_normal(self, c, o: Outcome, entry_env, pre, fn):
@@ -353,6 +359,9 @@ class Engine(ExprMixin, CallMixin, StmtMixin):
         for lab, e in c.ensures:
             if lab.startswith("rt:"):
                 continue        # stated over an executable spec twin: evaluated around the real call at run time only
+            if lab.startswith("assume:"):
+                self.touched.add(f"post:{lab}")
+                continue        # an ASSUMED clause: callers rely on it, this body is not checked against it (listed in the evidence; run-time checked)
             self.oblige(o.st, "post", lab, self.spec_bool(e, post_st), fn)
         self._frame(c, o, pre, fn)
 
@@ -372,6 +381,8 @@ class Engine(ExprMixin, CallMixin, StmtMixin):
         self.oblige(o.st, "post-exc", f"{exc.cls}:allowed", z3.Or(*whens), fn)
         for r, wv in zip(matches, whens):
             for k, e in enumerate(r.ensures):
+                if e.startswith("assume:"):
+                    continue
                 e = e[6:] if e.startswith("ghost:") else e
                 lab = (r.labels[k] if k < len(r.labels) and r.labels[k] else f"ensures#{k}")
                 self.oblige(o.st, "post-exc", f"{exc.cls}:{lab}", z3.Implies(wv, self.spec_bool(e, post_st)), fn)
